@@ -7,7 +7,7 @@
 From Coq Require Import List ZArith NArith Bool Arith.
 Import ListNotations.
 
-Definition word := N.
+Notation word := N (only parsing).
 Definition key := list word.
 
 Definition key_eqb (a b : key) : bool := if list_eq_dec N.eq_dec a b then true else false.
